@@ -181,6 +181,14 @@ HISTORY = {
     "C09-13": ("caught (round 9)", ""),
     "C13-13": ("caught (round 9)", ""),
     "C14-13": ("caught (round 9)", ""),
+    "C03-14": ("caught (round 10)", ""),
+    "C04-14": ("caught (round 10)", ""),
+    "C08-14": ("caught (round 10)", ""),
+    "C11-14": ("missed (round 10)", "C11 hydration-coverage `<entry point>/hydrates` (every manager entry point touching the queue hydrates) and `ensure_hydrated/skip-decided-by-hydrated-set`"),
+    "C12-14": ("caught (round 10)", ""),
+    "C16-14": ("caught (round 10)", ""),
+    "C17-14": ("missed (round 10)", "C17 group-image `v1-fallback-independent-of-hash`: the v1 attempt after a failed v2 attempt is not control-dependent on the published hash"),
+    "C20-14": ("missed (round 10)", "C20 / C11 `list-oldest-first/sqlite/no-name-tiebreak`: created_at ties are not broken by snapshot_name (un-padded decimal epoch)"),
 }
 rows = ["| id | change (needs) | first | now caught by | strengthened |", "|----|----------------|-------|---------------|--------------|"]
 sd = os.path.join(VERIF, "seeded")
